@@ -442,11 +442,16 @@ where
 
                 // Handle any comments in between the value and the punctuation
                 // If they are present, then move them to after the punctuation
-                let mut trailing_comments = value.trailing_comments();
+                let trailing_comments = value.trailing_comments();
                 let value = value.update_trailing_trivia(FormatTriviaType::Replace(vec![]));
 
                 let punctuation = fmt_symbol!(ctx, punctuation, ",", shape);
-                trailing_comments.append(&mut punctuation.trailing_trivia().cloned().collect());
+                let trailing_comments = trivia_util::join_trailing_trivia(
+                    ctx,
+                    hanging_shape,
+                    trailing_comments,
+                    punctuation.trailing_trivia().cloned().collect(),
+                );
                 let punctuation = punctuation
                     .update_trailing_trivia(FormatTriviaType::Replace(trailing_comments));
 
@@ -549,7 +554,7 @@ where
                 // Also add any trailing comments we have taken from the expression
                 let symbol = fmt_symbol!(ctx, punctuation, ",", shape);
 
-                let mut trailing_trivia: Vec<_> = symbol
+                let leading_comments: Vec<_> = symbol
                     .leading_trivia()
                     .filter(|trivia| trivia_util::trivia_is_comment(trivia))
                     .cloned()
@@ -561,13 +566,24 @@ where
                             x,
                         ]
                     })
-                    .chain(singleline_comments)
                     .collect();
+                let trailing_trivia = trivia_util::join_trailing_trivia(
+                    ctx,
+                    shape,
+                    symbol.trailing_trivia().cloned().collect(),
+                    leading_comments,
+                );
+                let mut trailing_trivia = trivia_util::join_trailing_trivia(
+                    ctx,
+                    shape,
+                    trailing_trivia,
+                    singleline_comments,
+                );
                 trailing_trivia.push(create_newline_trivia(ctx));
 
                 let symbol = symbol.update_trivia(
                     FormatTriviaType::Replace(vec![]),
-                    FormatTriviaType::Append(trailing_trivia),
+                    FormatTriviaType::Replace(trailing_trivia),
                 );
 
                 Some(symbol)
